@@ -108,6 +108,7 @@ type provPolicy struct {
 }
 
 type provEngine struct {
+	elemMode int // > 0 while the origin of a container's elements, not of the container, is asked for
 	prog     *ssa.Program
 	policy   provPolicy
 	retSum   map[*ssa.Function][]originSet // per result index
@@ -136,6 +137,10 @@ var freshFuncs = map[string]bool{
 	"strings.Split": true, "strings.Fields": true, "strings.SplitN": true, "strings.FieldsFunc": true, "strings.SplitAfter": true,
 	"os.Environ": true, "maps.Collect": true, "bytes.Clone": true, "slices.Repeat": true,
 }
+
+// shallowCopies: the result is new storage whose elements are the argument's elements — pointers among them still point
+// into whatever the argument's did.
+var shallowCopies = map[string]bool{"slices.Clone": true, "maps.Clone": true, "slices.Concat": true, "slices.Repeat": true, "maps.Collect": false}
 
 // aliasFuncs: result aliases argument index.
 var aliasFuncs = map[string]int{
@@ -319,7 +324,15 @@ func (e *provEngine) load(ld *ssa.UnOp, seen map[ssa.Value]bool) originSet {
 		// field of storage pointed to by something else: inherits that storage's origin
 		out.addAll(e.walk(a.X, seen))
 	case *ssa.IndexAddr:
-		out.addAll(e.walk(a.X, seen))
+		// an element that is itself a reference (a pointer, an interface, a slice, a map) points where the element
+		// of the copied container pointed: follow shallow copies to their source
+		if isElemRef(ld.Type()) {
+			e.elemMode++
+			out.addAll(e.walk(a.X, map[ssa.Value]bool{}))
+			e.elemMode--
+		} else {
+			out.addAll(e.walk(a.X, seen))
+		}
 	case *ssa.Alloc:
 		// load of a whole local: union of stored values
 		for _, sv := range cellStores(a) {
@@ -530,6 +543,10 @@ func (e *provEngine) callResult(call *ssa.Call, idx int, seen map[ssa.Value]bool
 				base := e.walk(common.Args[0], seen)
 				out.addAll(base)
 				out.add(origin{kind: oFresh})
+				// the elements that were appended point where they pointed
+				if e.elemMode > 0 && len(common.Args) > 1 {
+					out.addAll(e.walk(common.Args[1], seen))
+				}
 			}
 			return out
 		default:
@@ -551,6 +568,14 @@ func (e *provEngine) callResult(call *ssa.Call, idx int, seen map[ssa.Value]bool
 	name := ssaFuncName(callee)
 	if freshFuncs[name] {
 		out.add(origin{kind: oFresh})
+		// a shallow copy: the container is new, what its elements point to is not
+		if e.elemMode > 0 && shallowCopies[name] {
+			for _, a := range common.Args {
+				if isRefType(a.Type()) {
+					out.addAll(e.walk(a, seen))
+				}
+			}
+		}
 		return out
 	}
 	if ai, ok := aliasFuncs[name]; ok && ai < len(common.Args) {
@@ -844,4 +869,13 @@ func appendBaseIsReslice(v ssa.Value) bool {
 		return false
 	}
 	return walk(v)
+}
+
+// isElemRef: a value of this type refers to storage of its own (so a copy of it is an alias).
+func isElemRef(t types.Type) bool {
+	switch t.Underlying().(type) {
+	case *types.Pointer, *types.Interface, *types.Slice, *types.Map:
+		return true
+	}
+	return false
 }
